@@ -218,13 +218,15 @@ async function op_read_file_stream(req) {
 }
 
 class CollectWritable extends Writable {
-    constructor() { super(); this.parts = []; }
-    _write(chunk, enc, cb) { this.parts.push(Buffer.isBuffer(chunk) ? chunk : Buffer.from(chunk, enc)); cb(); }
+    // async_cb: the sink completes every write on a later event-loop turn, as a file or a pipe does - only then does write() report backpressure
+    // (a line longer than the high-water mark, or many lines in one turn) and 'drain' follow
+    constructor(async_cb) { super(); this.parts = []; this.async_cb = !!async_cb; }
+    _write(chunk, enc, cb) { this.parts.push(Buffer.isBuffer(chunk) ? chunk : Buffer.from(chunk, enc)); if (this.async_cb) setImmediate(cb); else cb(); }
 }
 
 async function op_write(req) {
     // req: {table, delim, policy, line_separator, encoding, header}
-    let sink = new CollectWritable();
+    let sink = new CollectWritable(req.async_sink);
     let result = {};
     let table = req.revive ? req.table.map(revive) : req.table;
     // the language's own text of every cell (String(value), arrays element by element), taken before the writer sees the table
@@ -237,6 +239,7 @@ async function op_write(req) {
         }
         await w.finish();
         await turns(2);
+        if (req.async_sink) { for (let k = 0; k < 200 && sink.writableLength > 0; k++) await turns(1); }
         result = {bytes_hex: Buffer.concat(sink.parts).toString('hex'), warnings: w.get_warnings(), error: null};
     } catch (e) {
         result = {bytes_hex: Buffer.concat(sink.parts).toString('hex'), warnings: [], error: err_info(e)};
